@@ -657,6 +657,9 @@ impl<'a, 'tcx> Cx<'a, 'tcx> {
         }
         kv.push(("span", span_s(self.tcx, sp)));
         kv.push(("exp", J::Bool(sp.from_expansion())));
+        if sp.from_expansion() {
+            kv.push(("cs", span_s(self.tcx, sp.source_callsite())));
+        }
         J::obj(kv)
     }
 }
